@@ -1,7 +1,10 @@
 import NixModel.Lemmas.StoreViews
 import NixModel.Lemmas.C03Accept
 import NixModel.Lemmas.C03Uuid
+import NixModel.Lemmas.C03Handles
+import NixModel.Lemmas.C03Succeeds
 import NixModel.Generated.CreateShape
+import NixModel.Lemmas.C03ContShape
 
 /-!
 # C03 — names unique per parent, ids unique, all lookups agree
@@ -210,6 +213,67 @@ theorem order_after_delete {g : Graph} (hg : ReachableFreshX g) {p : Path} {cn :
     ∃ g', contDel g c key = .ok g' ∧ cLinks g' c.node = (contEntries g c).filter (fun l => l != e) :=
   hg.wf.contDel_plain hc hfl hget
 
+/-! ### entity objects (handles) as keys
+
+A Python entity object enters the model as the node its HDF5 object is (`Key.ent`), resolved from ANY path that
+leads to it (`KeyArg.obj q`: through the owning container, a link list of a group / tag / array, the `positions` /
+`extents` / `metadata` / `link` / `data` links, …); the correspondence presents handles of every such provenance.
+`holds g c k` = the node `k` is the target of an entry of `c`. -/
+
+/-- **membership by entity object, owning containers** — in every reachable graph, for every owning container and
+every entity object of the container's kind: `e in c` is True exactly when the object is (the target of) an entry of
+`c`; an entity of the same name elsewhere is not a member, and the path the handle came by does not matter -/
+theorem membership_by_entity {g : Graph} (hg : ReachableFreshX g) {p : Path} {cn : String} {c : Cont}
+    (hc : openCont g p cn = some c) (hpl : isPlainLike c.info.flavour = true) (k : Nat)
+    (hk : kindOf g k = c.info.item) :
+    contHas g c (.ent k) = .ok (holds g c k) :=
+  hg.wf.contHas_ent_plain (hg.wf.entries_ok hc) hpl k hk
+
+/-- … and for link lists: True exactly when the object is linked there -/
+theorem membership_by_entity_link {g : Graph} (hg : ReachableFreshX g) {p : Path} {cn : String} {c : Cont}
+    (hc : openCont g p cn = some c) (hfl : c.info.flavour = .link ∨ c.info.flavour = .sourceLink) (k : Nat)
+    (hk : kindOf g k = c.info.item) :
+    contHas g c (.ent k) = .ok (holds g c k) :=
+  hg.wf.contHas_ent_link (hg.wf.entries_ok hc) hfl k hk
+
+/-- **handles of every provenance** — the entity object at the end of any path `q` (`KeyArg.obj q`) is a member of
+an owning container or a link list iff its node is an entry; two paths to the same node get the same answer; and the
+answer is True for the handle fetched from the `j`-th entry itself -/
+theorem membership_by_handle {g : Graph} (hg : ReachableFreshX g) {p : Path} {cn : String} {c : Cont}
+    (hc : openCont g p cn = some c)
+    (hfl : isPlainLike c.info.flavour = true ∨ c.info.flavour = .link ∨ c.info.flavour = .sourceLink)
+    {q : Path} {l : Loc} (hq : resolve g rootLoc q = some l) (hk : kindOf g l.key = c.info.item) :
+    (∃ key, resolveKeyArg g (.obj q) = some key ∧ contHas g c key = .ok (holds g c l.key)) ∧
+    (∀ q' l', resolve g rootLoc q' = some l' → l'.key = l.key →
+      (resolveKeyArg g (.obj q')).map (contHas g c) = (resolveKeyArg g (.obj q)).map (contHas g c)) ∧
+    (∀ (j : Nat) (hj : j < contLen g c), ((contEntries g c)[j]'hj).2 = l.key → holds g c l.key = true) := by
+  refine ⟨⟨.ent l.key, by simp [resolveKeyArg, hq], ?_⟩, ?_, ?_⟩
+  · rcases hfl with h | h
+    · exact membership_by_entity hg hc h _ hk
+    · exact membership_by_entity_link hg hc h _ hk
+  · intro q' l' hq' e
+    simp [resolveKeyArg, hq, hq', e]
+  · intro j hj e
+    exact holds_iff.mpr ⟨_, List.getElem_mem _, e⟩
+
+/-- an entity object of another kind is refused with TypeError -/
+theorem membership_by_entity_wrong_kind (g : Graph) (c : Cont) (k : Nat) (hk : kindOf g k ≠ c.info.item) :
+    contHas g c (.ent k) = .error .typeError := contHas_ent_wrong_kind g c k hk
+
+/-- **deletion by entity object** (`del c[e]`, plain containers) removes exactly the entry whose target is the
+object — whatever path the handle came by — and keeps the order of the rest -/
+theorem delete_by_entity {g : Graph} (hg : ReachableFreshX g) {p : Path} {cn : String} {c : Cont}
+    (hc : openCont g p cn = some c) (hfl : c.info.flavour = .plain) {e : String × Nat}
+    (hmem : e ∈ contEntries g c) :
+    ∃ g', contDel g c (.ent e.2) = .ok g' ∧ cLinks g' c.node = (contEntries g c).filter (fun l => l != e) :=
+  hg.wf.contDel_ent_plain (hg.wf.entries_ok hc) hfl hmem
+
+/-- every key form (name, id, position, negative position) that addresses an entry deletes exactly what deleting by
+that entry's entity object deletes — in every kind of container (subtree deletion of sections / sources and
+unlinking from link lists included) -/
+theorem delete_key_forms_agree {g : Graph} {c : Cont} {key : Key} {e : String × Nat}
+    (hget : contGet g c key = .ok e) : contDel g c key = contDel g c (.ent e.2) := contDel_key_eq_ent hget
+
 /-- **link lists: append** — a successful `append` leaves the list as the old entries without
 the appended entity, followed by it (so a first append puts it last and a re-append moves it to
 the end); entries of link lists are named by the id of their target -/
@@ -381,6 +445,97 @@ theorem legal_name_accepted_section {g g' : Graph} (hg : ReachableFreshX g) {p :
       rw [this] at hci; rw [← Option.some.inj hci]; rfl
   exact acceptedAs_of_created hg.wf hc hpl (by rw [ho]; exact hcr) hfresh hnew
 
+/-! ### … and the call itself succeeds
+
+The acceptance theorems above take the success of the call as a hypothesis; here it is proved from what the property
+text asks for: a legal name (non-empty, no slash), a type, and no entry of the function's OWN container under that
+name (entities of other kinds of the same parent may carry it). -/
+
+/-- `Block.create_group / create_data_array / create_tag / create_source`, `Source.create_source` at any depth: a
+legal name that is free in the container is accepted — the call succeeds and the new entity is the last entry,
+addressable by position, name, id and entity object (`AcceptedAs`) -/
+theorem legal_name_accepted_in_full {g : Graph} (hg : ReachableFreshX g) {p : Path} {o : Loc}
+    {what name type cname kind : String} {c : Cont}
+    (hr : resolve g rootLoc p = some o) (hsp : createSpec (kindOf g o.key) what = some (cname, kind))
+    (hmt : kind ≠ "multi_tag") (hn : name ≠ "") (hs : hasSlash name = false) (ht : type ≠ "")
+    (hfresh : ∀ m, g.nextId ≤ m → name ≠ idStr m)
+    (hc : openCont g p cname = some c) (hnew : ∀ l ∈ contEntries g c, l.1 ≠ name) :
+    ∃ g', createIn g p what name type none = .ok g' ∧ AcceptedAs g o.key cname name c g' := by
+  obtain ⟨o', hr', _, _, _, _, hnode⟩ := openCont_some hc
+  have hoo : o' = o := by rw [hr] at hr'; exact (Option.some.inj hr').symm
+  subst hoo
+  have hnew' : ∀ l ∈ cLinks g (g.child? o'.key cname), l.1 ≠ name := by
+    intro l hl; apply hnew; unfold contEntries; rw [hnode]; exact hl
+  obtain ⟨g', hres⟩ := hg.wf.createIn_ok hr hsp hmt (checkNameType_of hn hs ht) hnew'
+  refine ⟨g', hres, ?_⟩
+  obtain ⟨o2, cname2, kind2, c2, hr2, hsp2, hc2, _, _, hacc⟩ := legal_name_accepted_in hg hfresh hres
+  have e1 : o2 = o' := by rw [hr] at hr2; exact (Option.some.inj hr2).symm
+  subst e1
+  have e2 : cname2 = cname := by rw [hsp] at hsp2; exact (Prod.mk.inj (Option.some.inj hsp2)).1.symm
+  subst e2
+  have e3 : c2 = c := by rw [hc] at hc2; exact (Option.some.inj hc2).symm
+  subst e3
+  exact hacc
+
+/-- `Block.create_multi_tag(name, type, positions=<an array of the block>)`: a legal name that no multi tag of the
+block carries is accepted; the positions array is a member of the block's `data_arrays` by object (`inBlockStore`),
+whatever handle presented it -/
+theorem legal_name_accepted_multi_tag_full {g : Graph} (hg : ReachableFreshX g) {p : Path} {o : Loc}
+    {name type : String} {pos : Nat} {c : Cont}
+    (hr : resolve g rootLoc p = some o) (hk : kindOf g o.key = "block")
+    (hn : name ≠ "") (hs : hasSlash name = false) (ht : type ≠ "")
+    (hfresh : ∀ m, g.nextId ≤ m → name ≠ idStr m)
+    (hc : openCont g p "multi_tags" = some c) (hnew : ∀ l ∈ contEntries g c, l.1 ≠ name)
+    (hpk : isKind g pos "data_array" = true) (hps : inBlockStore g o.key "data_arrays" pos = true) :
+    ∃ g', createIn g p "multi_tag" name type (some pos) = .ok g' ∧ AcceptedAs g o.key "multi_tags" name c g' := by
+  obtain ⟨o', hr', _, _, _, _, hnode⟩ := openCont_some hc
+  have hoo : o' = o := by rw [hr] at hr'; exact (Option.some.inj hr').symm
+  subst hoo
+  have hnew' : ∀ l ∈ cLinks g (g.child? o'.key "multi_tags"), l.1 ≠ name := by
+    intro l hl; apply hnew; unfold contEntries; rw [hnode]; exact hl
+  obtain ⟨g', hres⟩ := hg.wf.createIn_mtag_ok hr hk (checkNameType_of hn hs ht) hfresh hnew' hpk hps
+  refine ⟨g', hres, ?_⟩
+  obtain ⟨o2, cname2, kind2, c2, hr2, hsp2, hc2, _, _, hacc⟩ := legal_name_accepted_in hg hfresh hres
+  have e1 : o2 = o' := by rw [hr] at hr2; exact (Option.some.inj hr2).symm
+  subst e1
+  have hsp : createSpec (kindOf g o2.key) "multi_tag" = some ("multi_tags", "multi_tag") := by rw [hk]; rfl
+  have e2 : cname2 = "multi_tags" := by rw [hsp] at hsp2; exact (Prod.mk.inj (Option.some.inj hsp2)).1.symm
+  subst e2
+  have e3 : c2 = c := by rw [hc] at hc2; exact (Option.some.inj hc2).symm
+  subst e3
+  exact hacc
+
+/-- `Block.create_data_frame`: a legal name that no data frame of the block carries is accepted (arrays, tags … of
+that name do not matter) -/
+theorem legal_name_accepted_frame_full {g : Graph} (hg : ReachableFreshX g) {p : Path} {o : Loc} {name type : String}
+    {c : Cont} (hr : resolve g rootLoc p = some o) (hk : kindOf g o.key = "block")
+    (hn : name ≠ "") (hs : hasSlash name = false) (ht : type ≠ "")
+    (hfresh : ∀ m, g.nextId ≤ m → name ≠ idStr m)
+    (hc : openCont g p "data_frames" = some c) (hnew : ∀ l ∈ contEntries g c, l.1 ≠ name) :
+    ∃ g', createFrame g p name type = .ok g' ∧ AcceptedAs g c.owner.key "data_frames" name c g' := by
+  obtain ⟨o', hr', _, _, _, _, hnode⟩ := openCont_some hc
+  have hoo : o' = o := by rw [hr] at hr'; exact (Option.some.inj hr').symm
+  subst hoo
+  have hnew' : ∀ l ∈ cLinks g (g.child? o'.key "data_frames"), l.1 ≠ name := by
+    intro l hl; apply hnew; unfold contEntries; rw [hnode]; exact hl
+  obtain ⟨g', hres⟩ := createFrame_ok hr hk (checkNameType_of hn hs ht) hnew'
+  exact ⟨g', hres, legal_name_accepted_frame hg hc hfresh hnew hres⟩
+
+/-- `File.create_section` / `Section.create_section` at any depth: a legal name that no subsection of the same parent
+carries is accepted. `File.create_section` tests `name in self.sections`, which tries ids first: for the top level
+the name must not be the id of a top-level section (the documented clash, see the open finding) -/
+theorem legal_name_accepted_section_full {g : Graph} (hg : ReachableFreshX g) {p : Path} {name type : String}
+    {c : Cont} (hc : openCont g p (if p = [] then "metadata" else "sections") = some c)
+    (hk : p ≠ [] → kindOf g c.owner.key = "section")
+    (hn : name ≠ "") (hs : hasSlash name = false) (ht : type ≠ "")
+    (hfresh : ∀ m, g.nextId ≤ m → name ≠ idStr m)
+    (hnew : ∀ l ∈ contEntries g c, l.1 ≠ name)
+    (hclash : p = [] → isUuid name = true → ∀ l ∈ contEntries g c, g.entityId l.2 ≠ some name) :
+    ∃ g', createSection g p name type = .ok g' ∧
+      AcceptedAs g c.owner.key (if p = [] then "metadata" else "sections") name c g' := by
+  obtain ⟨g', hres⟩ := hg.wf.createSection_ok hc hk (checkNameType_of hn hs ht) hnew hclash
+  exact ⟨g', hres, legal_name_accepted_section hg hn hfresh hc hnew hres⟩
+
 /-- **the kinds of one parent do not see each other** — a successful create call in one container
 (`create_data_frame`, any `create_*` of a block or source, `create_section`) leaves every other
 container of the same parent as it was -/
@@ -500,6 +655,46 @@ theorem create_shape_functions :
       [("File", "create_block", "self._data", "self._data", "Block"),
        ("File", "create_section", "self.sections", "self._metadata", "Section")] := by decide
 
+/-! ### the tie to the source: the decision trees of the lookups (`Generated/ContShape.lean`, regenerated from
+`container.py` and `hdf5/h5group.py` on every run: the tests and outcomes of `Container.__contains__`,
+`LinkContainer.__contains__`, `Container.__getitem__`, `LinkContainer.__getitem__`, `H5Group.get_by_id_or_name` in the
+order of the code). Each atom has the meaning of its own Python expression (`Store/ContShape.lean`); the theorems say
+that the code's decision trees compute the model's functions, for ALL graphs, containers and keys. -/
+
+/-- `Container.__contains__` (owning containers; keys: entity objects of any provenance, names, ids) is `contHas`:
+entity → class test → `name in backend` → HDF5 object identity; str → id first, then name -/
+theorem contains_shape_plain (g : Graph) (c : Cont) (hpl : isPlainLike c.info.flavour = true) (key : Key)
+    (hkey : ∀ i, key ≠ .pos i) :
+    Gen.containerContains.evalHas g c key = some (contHas g c key) := containerContains_eq g c hpl key hkey
+
+/-- `LinkContainer.__contains__` (link lists) is `contHas`: entity → class test → `id in backend`; str → link named by
+the id, else scan by name attribute -/
+theorem contains_shape_link (g : Graph) (c : Cont) (hfl : c.info.flavour = .link ∨ c.info.flavour = .sourceLink)
+    (key : Key) (hkey : ∀ i, key ≠ .pos i) :
+    Gen.linkContains.evalHas g c key = some (contHas g c key) := linkContains_eq g c hfl key hkey
+
+/-- `Container.__getitem__` (keys: positions, names, ids) is `contGet` -/
+theorem getitem_shape_plain (g : Graph) (c : Cont) (hpl : isPlainLike c.info.flavour = true) (key : Key)
+    (hkey : ∀ k, key ≠ .ent k) :
+    Gen.containerGetitem.evalGet g c key = some (contGet g c key) := containerGetitem_eq g c hpl key hkey
+
+/-- `LinkContainer.__getitem__` is `contGet` -/
+theorem getitem_shape_link (g : Graph) (c : Cont) (hfl : c.info.flavour = .link ∨ c.info.flavour = .sourceLink)
+    (key : Key) (hkey : ∀ k, key ≠ .ent k) :
+    Gen.linkGetitem.evalGet g c key = some (contGet g c key) := linkGetitem_eq g c hfl key hkey
+
+/-- `H5Group.get_by_id_or_name` is `getByIdOrName`: the id is tried first, a name may look like an id -/
+theorem h5_lookup_shape (g : Graph) (c : Cont) (x : String) :
+    Gen.h5GetByIdOrName.evalLookup g c (.str x) = some (getByIdOrName g c.node x) := h5GetByIdOrName_eq g c x
+
+/-- so the generated tree of `Container.__contains__` itself answers, on every reachable graph and for the handle at
+the end of ANY path, whether the node is an entry of the container -/
+theorem contains_shape_by_handle {g : Graph} (hg : ReachableFreshX g) {p : Path} {cn : String} {c : Cont}
+    (hc : openCont g p cn = some c) (hpl : isPlainLike c.info.flavour = true)
+    {q : Path} {l : Loc} (_hq : resolve g rootLoc q = some l) (hk : kindOf g l.key = c.info.item) :
+    Gen.containerContains.evalHas g c (.ent l.key) = some (.ok (holds g c l.key)) := by
+  rw [contains_shape_plain g c hpl _ (by intro i e; cases e), membership_by_entity hg hc hpl _ hk]
+
 /-! Non-vacuity: a concrete reachable state with two blocks, looked up in every way. -/
 def demo : Graph := run init [.createBlock "b" "t", .createBlock "0f0f0f0f0f0f0f0f0f0f0f0f0f0f0f0f" "t"]
 
@@ -539,6 +734,49 @@ example : (match createFrame demoX [.name "data", .name "b"] "x" "t" with | .err
     = true := by decide +kernel
 example : (match createFrame demoX [.name "data", .name "b"] "y" "t" with | .ok _ => true | _ => false) = true := by
   decide +kernel
+
+/-- an array reached through three paths: the block's container, the group's link list, the multi tag's positions -/
+def demoLOps : List Op := [.createBlock "b" "t", .createBlock "c" "t",
+  .createIn [.name "data", .name "b"] "data_array" "x" "t" none,
+  .createIn [.name "data", .name "c"] "data_array" "x" "t" none,
+  .createIn [.name "data", .name "b"] "group" "g" "t" none,
+  .createIn [.name "data", .name "b"] "multi_tag" "m" "t" (some [.name "data", .name "b", .name "data_arrays", .name "x"]),
+  .append [.name "data", .name "b", .name "groups", .name "g"] "data_arrays"
+    (.obj [.name "data", .name "b", .name "multi_tags", .name "m", .name "positions"])]
+
+def demoL : Graph := run init demoLOps
+
+theorem demoL_reachable : ReachableFreshX demoL :=
+  ReachableFresh.toX ⟨demoLOps, ⟨fun n hn m _ => by cases hn; exact notId_of_head (by decide) m,
+    fun n hn m _ => by cases hn; exact notId_of_head (by decide) m,
+    fun n hn m _ => by cases hn; exact notId_of_head (by decide) m,
+    fun n hn m _ => by cases hn; exact notId_of_head (by decide) m,
+    fun n hn m _ => by cases hn; exact notId_of_head (by decide) m,
+    fun n hn m _ => by cases hn; exact notId_of_head (by decide) m,
+    (fun n hn => by cases hn), trivial⟩, rfl⟩
+
+/-- the three paths lead to one node; it is a member of `b.data_arrays` and of the link list, not of `c.data_arrays`
+(which holds another array `x`) -/
+example : ((resolve demoL rootLoc [.name "data", .name "b", .name "groups", .name "g", .name "data_arrays", .idx 0]).map (·.key),
+           (resolve demoL rootLoc [.name "data", .name "b", .name "multi_tags", .name "m", .name "positions"]).map (·.key)) =
+    ((resolve demoL rootLoc [.name "data", .name "b", .name "data_arrays", .name "x"]).map (·.key),
+     (resolve demoL rootLoc [.name "data", .name "b", .name "data_arrays", .name "x"]).map (·.key)) := by decide +kernel
+example : ((resolve demoL rootLoc [.name "data", .name "b", .name "groups", .name "g", .name "data_arrays", .idx 0]).bind fun l =>
+      (openCont demoL [.name "data", .name "b"] "data_arrays").map fun c => (contHas demoL c (.ent l.key)).toOption) =
+    some (some true) := by decide +kernel
+example : ((resolve demoL rootLoc [.name "data", .name "b", .name "groups", .name "g", .name "data_arrays", .idx 0]).bind fun l =>
+      (openCont demoL [.name "data", .name "c"] "data_arrays").map fun c => (contHas demoL c (.ent l.key)).toOption) =
+    some (some false) := by decide +kernel
+example : ((resolve demoL rootLoc [.name "data", .name "b", .name "multi_tags", .name "m", .name "positions"]).bind fun l =>
+      (openCont demoL [.name "data", .name "b", .name "groups", .name "g"] "data_arrays").map fun c =>
+        (contHas demoL c (.ent l.key)).toOption) = some (some true) := by decide +kernel
+
+example : ((resolve demoL rootLoc [.name "data", .name "b", .name "groups", .name "g", .name "data_arrays", .idx 0]).bind fun l =>
+      (openCont demoL [.name "data", .name "b"] "data_arrays").bind fun c =>
+        (Gen.containerContains.evalHas demoL c (.ent l.key)).map (·.toOption)) = some (some true) := by decide +kernel
+example : ((openCont demo [] "data").bind fun c =>
+      (Gen.containerGetitem.evalGet demo c (.str "0f0f0f0f0f0f0f0f0f0f0f0f0f0f0f0f")).map fun r => r.toOption.map (·.1)) =
+    some (some "0f0f0f0f0f0f0f0f0f0f0f0f0f0f0f0f") := by decide +kernel
 
 example : WF demo := reachable_wf demo_reachable
 example : ∃ c, openCont demo [] "data" = some c ∧ hasSlash "new" = false ∧
